@@ -235,7 +235,7 @@ func TestC05(t *testing.T) {
 		c.Direct(t, func() { k := loadCase[c05Case](t, p); c.Eval(); c.Report(pbt.DirectTB(t), k, evalC05(k)) })
 		return
 	}
-	avoidAll := pbt.AvoidTags("C05", "C11", "C12", "C07", "C01")
+	avoidAll := pbt.AvoidTags("C05")
 	c.SetRecheck(func(k any) []pbt.Violation { return evalC05(k.(c05Case)) })
 	replayKnownX(t, c, func(k c05Case) []pbt.Violation { return evalC05(k) })
 	excluded := 0
